@@ -106,6 +106,10 @@ struct Ck {
     trusted_log: bool,
     first_stages: Vec<Stage>,
     strict: bool,
+    /// C08 only: a published diff was already wrong (the probe's replica diverged); the case goes on
+    /// so that the end-of-stream rule can judge the real subscribers, and ends as "other property"
+    /// if that rule is satisfied all the same
+    deferred_other: Option<String>,
 }
 
 impl Ck {
@@ -491,9 +495,13 @@ impl World {
                             self.msgs.push(Msg { txn: false, k: 1, diffs: Some(vec![md]) });
                         }
                     }
-                    self.ck.check(replica_ok, &[C05, C06], || {
-                        format!("{what}: replica of an up-to-date subscriber {:?} != vector contents {:?}", self.probe.as_ref().unwrap().1, self.model)
-                    })?;
+                    if !replica_ok && self.ck.prop == C08 {
+                        self.defer_probe_mismatch(what);
+                    } else {
+                        self.ck.check(replica_ok, &[C05, C06], || {
+                            format!("{what}: replica of an up-to-date subscriber {:?} != vector contents {:?}", self.probe.as_ref().unwrap().1, self.model)
+                        })?;
+                    }
                 }
                 None => {
                     if let Some(ds) = item {
@@ -506,9 +514,13 @@ impl World {
                     }
                     // the probe is a batched subscriber with an empty pipeline: C13's business too
                     let props: &[Prop] = if had_oob { &[C05, C06, C07, C13, C17] } else { &[C05, C06, C07, C13] };
-                    self.ck.check(replica_ok, props, || {
-                        format!("{what}: replica of an up-to-date subscriber {:?} != vector contents {:?}", self.probe.as_ref().unwrap().1, self.model)
-                    })?;
+                    if !replica_ok && self.ck.prop == C08 {
+                        self.defer_probe_mismatch(what);
+                    } else {
+                        self.ck.check(replica_ok, props, || {
+                            format!("{what}: replica of an up-to-date subscriber {:?} != vector contents {:?}", self.probe.as_ref().unwrap().1, self.model)
+                        })?;
+                    }
                 }
             }
         } else if self.receivers() > 0 {
@@ -981,6 +993,16 @@ impl World {
             }
         }
         self.ck.fail(&[C05, C06, C09, C10, C11, C12, C13], format!("a stream yielded more than {max} items without becoming Pending"))
+    }
+
+    /// C08: remember the divergence, resynchronise the probe's replica, carry on.
+    fn defer_probe_mismatch(&mut self, what: &str) {
+        let msg = format!("{what}: replica of an up-to-date subscriber {:?} != vector contents {:?}", self.probe.as_ref().unwrap().1, self.model);
+        if self.ck.deferred_other.is_none() {
+            self.ck.deferred_other = Some(msg);
+        }
+        let m = self.model.clone();
+        self.probe.as_mut().unwrap().1 = m;
     }
 
     fn check_taps(&mut self, i: usize) -> R {
@@ -1463,7 +1485,7 @@ fn run_inner(case: &VecCase, prop: Prop) -> R<(CaseReport, Feat)> {
     let capacity = case.capacity.max(1);
     let mut vec: ObservableVector<Val> = ObservableVector::with_capacity(capacity);
     let mut w = World {
-        ck: Ck { prop, rep: CaseReport::default(), f: Feat::default(), trusted_log: case.probe, first_stages: vec![], strict: case.strict },
+        ck: Ck { prop, rep: CaseReport::default(), f: Feat::default(), trusted_log: case.probe, first_stages: vec![], strict: case.strict, deferred_other: None },
         vec: None,
         model: vec![],
         capacity,
@@ -1544,6 +1566,10 @@ fn run_inner(case: &VecCase, prop: Prop) -> R<(CaseReport, Feat)> {
         w.ck.f.nonlagging_sub_in_reset_case = true;
     }
     let World { ck, .. } = w;
+    if let Some(msg) = ck.deferred_other {
+        // (C08 only) the end-of-stream rules were satisfied although a published diff was wrong
+        return Err(Stop::Tainted(msg));
+    }
     Ok((ck.rep, ck.f))
 }
 
